@@ -1,6 +1,261 @@
 import TabulaModel.Util
-namespace Tabula.C14H
+import TabulaModel.Model.Export
+/-
+Line-protocol handler for C14.  Wire format (one op per line, fields separated by one space):
 
-def handle (_op : String) (_args : List String) : String := "bad-op"
+  chunk   := id.text.title.sectitle.path.parent.children.etypes.hl.ps.pe.ci.tc.lvl.cc.wc.et.flags
+             strings = hex ("-" empty); lists = "~" (empty) or comma-separated hex; ints decimal;
+             flags = three 0/1 digits (table, list, image)
+  chunks  := c=<chunk>/<chunk>/…            (c= for the empty collection)
+  config  := g=<fmt>;<inclMeta>;<fields>;<inclText>;<inclEmb>;<flatten>;<delimRune>;<header>;<pretty>;<textcol>;<idcol>
+             fmt = jsonl|json|csv|tsv|other; fields = "~" (nil) or "=" + comma-separated hex
+  val     := s<hex> | i<int> | b0 | b1 | l<hex>+<hex>…   (l alone = empty list)
+
+  c14.csvcols g c   -> comma-separated hex column names
+  c14.rows g c      -> records ';'-joined, cells ','-joined hex; "none" when no record
+  c14.export g c    -> "ok <hex text>" | "err"
+  c14.json g c      -> records ';'-joined: id|text|meta|title|ps|pe|ci|sectitle|path|flags
+                       meta = "~" (absent or empty) or sorted key:val ','-joined
+  c14.stream g c    -> "ok <same dump as c14.json>" | "err"
+  c14.batch size n  -> batches ','-joined: num:start:end:count:i+i+…   ("none" when no batch)
+  c14.filt f=<op>+<op>… L=<hex>>hex,… c   -> ids ','-joined hex ("none")
+                       op = sec:<hex> | page:<int> | range:<int>:<int> | etype:<hex> | tables | lists |
+                            images | min:<int> | max:<int> | search:<hex>;  L = strings.ToLower table
+  c14.csv d r=<rows>     -> hex of the csv.Writer output (rows ';'-joined, cells ','-joined, "~" = record without fields)
+  c14.csvread d <hex>    -> "err" | rows dump as in c14.rows
+  c14.fmtval <val>       -> hex of formatValue
+  c14.meta2map <chunk>   -> sorted key:val dump of chunkMetadataToMap
+  c14.flatten <tokens>   -> sorted key:val dump of flattenMetadata(map,""); tokens ','-joined, prefix
+                            notation: o<n> then n × (<keyhex>, value) | s<hex> | i<int> | b0 | b1 | l<hex>+…
+-/
+namespace Tabula.C14H
+open Tabula Tabula.Export Tabula.Csv
+
+def toStr (b : Bytes) : Str := b.map (·.toNat)
+def ofStr (s : Str) : Bytes := s.map UInt8.ofNat
+def hexS (s : Str) : String := hex (ofStr s)
+def unhexS (s : String) : Option Str := (unhex s).map toStr
+
+def parseList (s : String) : Option (List Str) :=
+  if s == "~" then some [] else (s.splitOn ",").mapM unhexS
+
+def parseBool (s : String) : Option Bool :=
+  if s == "1" then some true else if s == "0" then some false else none
+
+def parseChunk (s : String) : Option Chunk :=
+  match s.splitOn "." with
+  | [id, text, title, sect, path, parent, children, etypes, hl, ps, pe, ci, tc, lvl, cc, wc, et, flags] => do
+    let id ← unhexS id; let text ← unhexS text; let title ← unhexS title; let sect ← unhexS sect
+    let path ← parseList path; let parent ← unhexS parent
+    let children ← parseList children; let etypes ← parseList etypes
+    let hl ← hl.toInt?; let ps ← ps.toInt?; let pe ← pe.toInt?; let ci ← ci.toInt?; let tc ← tc.toInt?
+    let lvl ← lvl.toInt?; let cc ← cc.toInt?; let wc ← wc.toInt?; let et ← et.toInt?
+    let (ft, fl, fi) ← match flags.toList with
+      | [a, b, c] => some (a == '1', b == '1', c == '1')
+      | _ => none
+    pure { id := id, text := text, md := {
+      documentTitle := title, sectionPath := path, sectionTitle := sect, headingLevel := hl,
+      pageStart := ps, pageEnd := pe, chunkIndex := ci, totalChunks := tc, level := lvl,
+      parentID := parent, childIDs := children, elementTypes := etypes,
+      hasTable := ft, hasList := fl, hasImage := fi, charCount := cc, wordCount := wc, estimatedTokens := et } }
+  | _ => none
+
+def parseChunks (s : String) : Option (List Chunk) :=
+  if !s.startsWith "c=" then none else
+  let body := (s.drop 2).toString
+  if body == "" then some [] else (body.splitOn "/").mapM parseChunk
+
+def parseFormat (s : String) : Format :=
+  if s == "jsonl" then .jsonl else if s == "json" then .json else if s == "csv" then .csv
+  else if s == "tsv" then .tsv else .other
+
+def parseConfig (s : String) : Option Config :=
+  if !s.startsWith "g=" then none else
+  match ((s.drop 2).toString).splitOn ";" with
+  | [fmt, im, fields, it, ie, fl, d, hd, pp, tcol, icol] => do
+    let im ← parseBool im; let it ← parseBool it; let ie ← parseBool ie; let fl ← parseBool fl
+    let hd ← parseBool hd; let pp ← parseBool pp
+    let d ← d.toNat?
+    let tcol ← unhexS tcol; let icol ← unhexS icol
+    let fields ← if fields == "~" then some none
+      else if fields == "=" then some (some [])
+      else if fields.startsWith "=" then ((fields.drop 1).toString.splitOn ",").mapM unhexS |>.map some
+      else none
+    pure { format := parseFormat fmt, includeMetadata := im, metadataFields := fields, includeText := it,
+           includeEmbeddings := ie, flattenMetadata := fl, csvDelimiter := d, includeHeader := hd,
+           prettyPrint := pp, textColumnName := tcol, chunkIDColumnName := icol }
+  | _ => none
+
+def dumpRow (r : List Str) : String := if r.isEmpty then "~" else ",".intercalate (r.map hexS)
+def dumpRows (rs : List (List Str)) : String :=
+  if rs.isEmpty then "none" else ";".intercalate (rs.map dumpRow)
+
+def dumpVal : Val → String
+  | .str s => "s" ++ hexS s
+  | .int i => "i" ++ toString i
+  | .bool b => if b then "b1" else "b0"
+  | .strs l => "l" ++ "+".intercalate (l.map hexS)
+  | .obj _ => "o"
+
+def sortKV (m : MapSV) : MapSV :=
+  let keys := sortStrings (mapKeys m)
+  keys.filterMap (fun k => (mapLookup m k).map (fun v => (k, v)))
+
+def dumpMap (m : MapSV) : String :=
+  if m.isEmpty then "~" else ",".intercalate ((sortKV m).map (fun (k, v) => hexS k ++ ":" ++ dumpVal v))
+
+def b01 (b : Bool) : String := if b then "1" else "0"
+
+def dumpPath (l : List Str) : String := if l.isEmpty then "~" else ",".intercalate (l.map hexS)
+
+def dumpExported (e : Exported) : String :=
+  "|".intercalate [hexS e.id, hexS e.text,
+    (match e.metadata with | none => "~" | some m => dumpMap m),
+    hexS e.documentTitle, toString e.pageStart, toString e.pageEnd, toString e.chunkIndex,
+    hexS e.sectionTitle, dumpPath e.sectionPath, b01 e.hasTable ++ b01 e.hasList ++ b01 e.hasImage]
+
+def dumpRecords (rs : List Exported) : String :=
+  if rs.isEmpty then "none" else ";".intercalate (rs.map dumpExported)
+
+def noMarshal (_ : MapSV) : Str := []
+
+def parseRows (s : String) : Option (List (List Str)) :=
+  if !s.startsWith "r=" then none else
+  let body := (s.drop 2).toString
+  if body == "" then some [] else
+  (body.splitOn ";").mapM (fun r => if r == "~" then some [] else (r.splitOn ",").mapM unhexS)
+
+def parseVal (s : String) : Option Val :=
+  if s.startsWith "s" then (unhexS (s.drop 1).toString).map Val.str
+  else if s.startsWith "i" then ((s.drop 1).toString.toInt?).map Val.int
+  else if s == "b1" then some (.bool true) else if s == "b0" then some (.bool false)
+  else if s == "l" then some (.strs [])
+  else if s.startsWith "l" then (((s.drop 1).toString.splitOn "+").mapM unhexS).map Val.strs
+  else none
+
+/-- prefix-notation tokens of a nested map value -/
+partial def parseTok : List String → Option (Val × List String)
+  | [] => none
+  | t :: rest =>
+    if t.startsWith "o" then
+      match (t.drop 1).toString.toNat? with
+      | none => none
+      | some n =>
+        let rec entries (n : Nat) (toks : List String) (acc : List (Str × Val)) : Option (List (Str × Val) × List String) :=
+          match n with
+          | 0 => some (acc.reverse, toks)
+          | n + 1 =>
+            match toks with
+            | k :: more =>
+              match unhexS k, parseTok more with
+              | some k, some (v, rest') => entries n rest' ((k, v) :: acc)
+              | _, _ => none
+            | [] => none
+        match entries n rest [] with
+        | some (kvs, rest') => some (.obj kvs, rest')
+        | none => none
+    else (parseVal t).map (fun v => (v, rest))
+
+def asciiLower (c : Nat) : Nat := if 65 ≤ c && c ≤ 90 then c + 32 else c
+/-- `strings.EqualFold` restricted to what the harness sends (ASCII element types) -/
+def asciiEqFold (a b : Str) : Bool := a.map asciiLower == b.map asciiLower
+
+def parseLower (s : String) : Option (List (Str × Str)) :=
+  if !s.startsWith "L=" then none else
+  let body := (s.drop 2).toString
+  if body == "" then some [] else
+  (body.splitOn ",").mapM (fun p => match p.splitOn ">" with
+    | [a, b] => do let a ← unhexS a; let b ← unhexS b; pure (a, b)
+    | _ => none)
+
+def parseOp (s : String) : Option FilterOp :=
+  match s.splitOn ":" with
+  | ["sec", h] => (unhexS h).map FilterOp.section
+  | ["page", n] => n.toInt?.map FilterOp.page
+  | ["range", a, b] => do let a ← a.toInt?; let b ← b.toInt?; pure (.pageRange a b)
+  | ["etype", h] => (unhexS h).map FilterOp.elementType
+  | ["tables"] => some .tables
+  | ["lists"] => some .lists
+  | ["images"] => some .images
+  | ["min", n] => n.toInt?.map FilterOp.minTokens
+  | ["max", n] => n.toInt?.map FilterOp.maxTokens
+  | ["search", h] => (unhexS h).map FilterOp.search
+  | _ => none
+
+def parseChain (s : String) : Option (List FilterOp) :=
+  if !s.startsWith "f=" then none else
+  let body := (s.drop 2).toString
+  if body == "" then some [] else (body.splitOn "+").mapM parseOp
+
+def handle (op : String) (args : List String) : String :=
+  match op, args with
+  | "c14.csvcols", [g, c] =>
+    (match parseConfig g, parseChunks c with
+     | some cfg, some cs => dumpRow (collectCSVColumns cfg cs)
+     | _, _ => "bad-op")
+  | "c14.rows", [g, c] =>
+    (match parseConfig g, parseChunks c with
+     | some cfg, some cs => dumpRows (exportCSVRecords noMarshal cfg cs)
+     | _, _ => "bad-op")
+  | "c14.export", [g, c] =>
+    (match parseConfig g, parseChunks c with
+     | some cfg, some cs =>
+       (match exportCSV noMarshal cfg cs with
+        | some t => "ok " ++ hexS t
+        | none => "err")
+     | _, _ => "bad-op")
+  | "c14.json", [g, c] =>
+    (match parseConfig g, parseChunks c with
+     | some cfg, some cs => dumpRecords (exportRecords cfg cs)
+     | _, _ => "bad-op")
+  | "c14.stream", [g, c] =>
+    (match parseConfig g, parseChunks c with
+     | some cfg, some cs =>
+       (match streamAll cfg cs [] with
+        | some rs => "ok " ++ dumpRecords rs
+        | none => "err")
+     | _, _ => "bad-op")
+  | "c14.batch", [size, n] =>
+    (match size.toNat?, n.toNat? with
+     | some size, some n =>
+       (match batchExport size (List.range n) with
+        | none => "size0"
+        | some bs =>
+          if bs.isEmpty then "none" else
+          ",".intercalate (bs.map fun b =>
+            s!"{b.batchNumber}:{b.startIndex}:{b.endIndex}:{b.chunkCount}:" ++
+              "+".intercalate (b.items.map toString)))
+     | _, _ => "bad-op")
+  | "c14.filt", [f, l, c] =>
+    (match parseChain f, parseLower l, parseChunks c with
+     | some ops, some tbl, some cs =>
+       let env : StrEnv := { toLower := fun s => (tbl.lookup s).getD s, eqFold := asciiEqFold }
+       let r := applyChain env ops cs
+       if r.isEmpty then "none" else ",".intercalate (r.map (hexS ·.id))
+     | _, _, _ => "bad-op")
+  | "c14.csv", [d, r] =>
+    (match d.toNat?, parseRows r with
+     | some d, some rows => hexS (csvWrite goExtra d rows)
+     | _, _ => "bad-op")
+  | "c14.csvread", [d, h] =>
+    (match d.toNat?, unhexS h with
+     | some d, some input =>
+       (match csvRead d input with
+        | some rows => dumpRows rows
+        | none => "err")
+     | _, _ => "bad-op")
+  | "c14.fmtval", [v] =>
+    (match parseVal v with
+     | some v => hexS (formatValue noMarshal v)
+     | none => "bad-op")
+  | "c14.meta2map", [c] =>
+    (match parseChunk c with
+     | some c => dumpMap (chunkMetadataToMap c.md)
+     | none => "bad-op")
+  | "c14.flatten", [t] =>
+    (match parseTok (t.splitOn ",") with
+     | some (.obj kvs, []) => dumpMap (flattenMetadata kvs [])
+     | _ => "bad-op")
+  | _, _ => "bad-op"
 
 end Tabula.C14H
